@@ -149,6 +149,26 @@ Proof.
 Qed.
 Print Assumptions c09_stopiteration_fastpath.
 
+(* 4b. every exception message reaches the request it answers.  The loader fails on ill-shaped payloads (and on a class whose
+       __new__ needs arguments) with TypeError / ValueError / UnicodeError only, never EOFError; on a tree whose _dispatch delivers
+       a rebuild failure to the request (generated fact [Dgen]) nothing escapes _dispatch: the request gets either the rebuilt
+       exception or that failure.  On a tree that unboxes inline the failure escapes with the callback left registered. *)
+Theorem c09_exception_reaches_request : forall M fR E payload,
+  (forall e, snd (vload M fR E payload) = Raise e -> e = TypeError \/ e = ValueError \/ e = UnicodeError) /\
+  (forall e, dispatch_exception true (snd (vload M fR E payload)) <> Escapes e) /\
+  (forall l, snd (vload M fR E payload) = Ok l -> forall d, dispatch_exception d (snd (vload M fR E payload)) = ToRequest l).
+Proof.
+  intros M fR E v. split; [|split].
+  - intros e. apply vload_raise_kinds.
+  - apply exception_reaches_request.
+  - intros l H d. now rewrite H.
+Qed.
+Print Assumptions c09_exception_reaches_request.
+Theorem c09_exception_reaches_request_refuted : forall M fR E,
+  exists payload e, dispatch_exception false (snd (vload M fR E payload)) = Escapes e.
+Proof. intros M fR E. exists (PInt 2), TypeError. apply exception_escapes_refuted. Qed.
+Print Assumptions c09_exception_reaches_request_refuted.
+
 (* 5. "when, and only when": with a sender switch off the payload does not depend on the traceback / version text at all *)
 Theorem c09_disclosure : forall P fS e,
   (incl_tb fS = false -> forall ver tb1 tb2, vdump P fS ver tb1 e = vdump P fS ver tb2 e) /\
@@ -309,4 +329,12 @@ Example c09_module_hook_matrix :
     [[ENew (Real (Custom (T "hookmod") (T "Plain")))]; [ENew (Real (Custom (T "hookmod") (T "Plain")))]; [ENew (Real (Custom (T "hookmod") (T "Plain")))]] /\
   mode_safe LkDictUnlessImport = true /\ mode_safe LkDict = true /\ mode_safe LkGetattr = false /\
   text_eqb (T "hookmod") BUILTINS = false /\ name_ok (T "hookmod") (T "Lazy") /\ snd (expected_class LkGetattr (R false true) E1 (T "hookmod") (T "Lazy")) = true.
+Proof. vm_compute. repeat split. Qed.
+
+(* the delivering dispatch on the hostile samples: a failure of the loader becomes the request's exception *)
+Example c09_dispatch_witness :
+  map (fun v => dispatch_exception true (snd (vload Mgen default_rflags E0 v))) [PInt 1; PInt 2; PTuple [PInt 1; PInt 2; PInt 3]; PTuple [PTuple [PStr [0xD800]; PStr (T "Bar")]; PTuple []; PTuple []; PStr (T "tb")]] =
+    [ToRequest LStop; FailsRequest TypeError; FailsRequest ValueError; FailsRequest UnicodeError] /\
+  dispatch_exception false (snd (vload Mgen default_rflags E0 (PInt 2))) = Escapes TypeError /\
+  dispatch_exception true (Raise EOFError) = Escapes EOFError.
 Proof. vm_compute. repeat split. Qed.
